@@ -35,6 +35,7 @@ Inductive op :=
 | Add (x : elt)
 | Update (vss : list (list elt))  (* x.f.update(it1, it2, ...) *)
 | AssignView (v : view)           (* x.f = <a LAZY iterable over x.f itself>: Python evaluates it against the OLD contents *)
+| SetSliceView (i j : Z) (v : view)  (* x.f[i:j] = <a lazy iterable over x.f itself>: list.__setitem__ materialises it before it changes the list *)
 | IAugAlias (vs : list elt).      (* c = x.f; c += vs  /  c |= set(vs): the in-place operator through another reference to the container *)
 
 Definition applicable (k : kind) (o : op) : bool :=
@@ -43,7 +44,7 @@ Definition applicable (k : kind) (o : op) : bool :=
   | KList, AssignView _ => true
   | KSet, AssignView VRev => false   (* a set is not reversible *)
   | KSet, AssignView _ => true
-  | KList, Append _ | KList, Extend _ | KList, Insert _ _ | KList, SetItem _ _ | KList, SetSlice _ _ _ | KList, SetSliceIter _ _ _ | KList, ExtendSelf => true
+  | KList, Append _ | KList, Extend _ | KList, Insert _ _ | KList, SetItem _ _ | KList, SetSlice _ _ _ | KList, SetSliceIter _ _ _ | KList, SetSliceView _ _ _ | KList, ExtendSelf => true
   | KSet, Add _ | KSet, Update _ => true
   | _, _ => false
   end.
@@ -80,6 +81,14 @@ Definition py_setslice (i j : Z) (vs : list elt) (l : list elt) : list elt :=
   let b := Nat.max a (insert_pos l j) in
   firstn a l ++ vs ++ skipn b l.
 
+(* xs.extend(v for v in cands if v not in xs): list.extend consumes a generator ITEM BY ITEM, so the filter sees the elements added so
+   far: a candidate that occurs twice is added once *)
+Fixpoint extend_lazy_new (cands : list elt) (l : list elt) : list elt :=
+  match cands with
+  | [] => l
+  | c :: r => extend_lazy_new r (if memb c l then l else l ++ [c])
+  end.
+
 (* one operation: new contents, and whether Python raises IndexError *)
 Definition py_step (k : kind) (o : op) (l : list elt) : list elt * bool :=
   match k, o with
@@ -97,6 +106,7 @@ Definition py_step (k : kind) (o : op) (l : list elt) : list elt * bool :=
   | KList, ExtendSelf => (l ++ l, false)                         (* list.extend(self) doubles the list *)
   | KSet, Add x => (set_add x l, false)
   | KSet, Update vss => (fold_left set_union vss l, false)
+  | KList, SetSliceView i j v => (py_setslice i j (view_apply v l) l, false)
   | KList, IAugAlias vs => (l ++ vs, false)
   | KSet, IAugAlias vs => (set_union l vs, false)
   | KList, AssignView v => (view_apply v l, false)
